@@ -1185,3 +1185,90 @@ func storesVisibleToClosure(cell *ssa.Alloc, site *ssa.MakeClosure) []*ssa.Store
 	}
 	return out
 }
+
+// ReachingFieldStores returns the stores to field `field` (of any base
+// object whose struct has that field name and, if typeName != "", that named
+// type) that may reach the given instruction inside its function;
+// fromBefore reports that the function entry is reachable backwards without
+// passing such a store (the value may come from before the call). Aliasing
+// through other pointers and stores made by callees are not modelled.
+func ReachingFieldStores(at ssa.Instruction, typeName, field string) (stores []*ssa.Store, fromBefore bool) {
+	fn := at.Parent()
+	seen := map[*ssa.BasicBlock]bool{}
+	added := map[*ssa.Store]bool{}
+	var scan func(b *ssa.BasicBlock, from int)
+	scan = func(b *ssa.BasicBlock, from int) {
+		for i := from; i >= 0; i-- {
+			if _, ok := StoreToField(b.Instrs[i], typeName, field); ok {
+				st := b.Instrs[i].(*ssa.Store)
+				if !added[st] {
+					added[st] = true
+					stores = append(stores, st)
+				}
+				return
+			}
+		}
+		if b == fn.Blocks[0] {
+			fromBefore = true
+		}
+		for _, p := range b.Preds {
+			feasible := false
+			for _, s := range Succs(p) {
+				if s == b {
+					feasible = true
+				}
+			}
+			if !feasible || seen[p] {
+				continue
+			}
+			seen[p] = true
+			scan(p, len(p.Instrs)-1)
+		}
+	}
+	scan(at.Block(), InstrIndex(at)-1)
+	return
+}
+
+// FieldStoresIn returns all stores to the named field in the given functions.
+func FieldStoresIn(fns []*ssa.Function, typeName, field string) []*ssa.Store {
+	var out []*ssa.Store
+	for _, f := range fns {
+		EachInstr(f, func(in ssa.Instruction) {
+			if _, ok := StoreToField(in, typeName, field); ok {
+				out = append(out, in.(*ssa.Store))
+			}
+		})
+	}
+	return out
+}
+
+// Unload resolves a load of a local or captured variable one step to the
+// values stored into it (without looking through phis); other values are
+// returned unchanged.
+func Unload(v ssa.Value) []ssa.Value {
+	u, ok := v.(*ssa.UnOp)
+	if !ok || u.Op != token.MUL {
+		return []ssa.Value{v}
+	}
+	var sts []*ssa.Store
+	switch x := u.X.(type) {
+	case *ssa.Alloc:
+		sts, _ = ReachingStores(u, x)
+	case *ssa.FreeVar:
+		cell, site := CellOf(x)
+		if cell == nil {
+			return []ssa.Value{v}
+		}
+		sts = storesVisibleToClosure(cell, site)
+	default:
+		return []ssa.Value{v}
+	}
+	if len(sts) == 0 {
+		return []ssa.Value{v}
+	}
+	var out []ssa.Value
+	for _, s := range sts {
+		out = append(out, s.Val)
+	}
+	return out
+}
